@@ -117,6 +117,7 @@ class Collector:
         self.cases = 0
         self.rel = {}
         self.relcount = collections.Counter()
+        self.scale = {}
 
     def mismatch(self, jobs, f, want, got, source):
         sk = _skeleton(f)
@@ -131,6 +132,22 @@ class Collector:
         if cur is None or size < cur[0]:
             self.rel[name] = (size, jobs, wf, rec, v, source)
         self.relcount[name] += 1
+
+    def scale_mismatch(self, jobs, wf, f, want, got, diff, small=False):
+        """a wrong answer in the scale tier; the replay carries the whole corpus (python AST for re-judging by TLC)"""
+        key = ("wrong-ids", _skeleton(wf))
+        size = (Q.fsize(wf), len(jobs), json.dumps(Q.concrete(wf), sort_keys=True))
+        cur = self.scale.get(key)
+        if cur is None or size < cur[0]:
+            self.scale[key] = (size, jobs, wf, f, want, got, diff, small)
+
+    def scale_local(self, jobs, wf, f, rec, k):
+        key = ("depends-on-number-of-jobs", _skeleton(wf))
+        size = (Q.fsize(wf), len(jobs), json.dumps(Q.concrete(wf), sort_keys=True))
+        cur = self.scale.get(key)
+        if cur is None or size < cur[0]:
+            bad = [(s["pos"], s["ids"][k]) for s in rec["small"] if set(rec["ids"][k]) & set(s["pos"]) != set(s["ids"][k])]
+            self.scale[key] = (size, jobs, wf, f, None, rec["ids"][k], bad, False)
 
     def deviation(self, lab, jobs, flt, want, got, source, n=1):
         self.dev[lab] += n
@@ -162,6 +179,21 @@ class Collector:
                           "find_jobs(%s) on %r: the code's own answers violate '%s' (answer %s, operand answers %s, single-job answers %s; %d such records)" % (
                               json.dumps(Q.concrete(wf)), jobs, name, rec["ids"], rec["sub"], rec["single"], self.relcount[name]),
                           {"corpus": jobs, "filter": Q.concrete(wf), "want": v["want"], "source": source, "relation": name, "ast": rec["_py"]["f"]})
+        for kind in ("wrong-ids", "depends-on-number-of-jobs"):
+            keys = sorted((k for k in self.scale if k[0] == kind), key=lambda k: (len(k[1]), k[1]))
+            minimal = [k for k in keys if not any(set(o[1]) < set(k[1]) for o in keys)]
+            for key in minimal[:4]:
+                _, jobs, wf, f, want, got, diff, small = self.scale[key]
+                if kind == "wrong-ids":
+                    what = "find_jobs(%s) on a project of %d jobs returns positions %s%s" % (json.dumps(Q.concrete(wf)), len(jobs), got[:30],
+                           "" if want is None else " but exactly %s satisfy the filter on their own data; differing jobs: %r" % (want[:30], [(q, jobs[q - 1]) for q in diff[:5]]))
+                    if small:
+                        what += " (jobs: %r) - not the jobs whose own data satisfy the filter" % (jobs,)
+                else:
+                    what = "find_jobs(%s): whether a job matches depends on how many other jobs exist - in the project of %d jobs the answer is %s, but small projects holding the jobs at positions %s answer %s (jobs: %r)" % (
+                        json.dumps(Q.concrete(wf)), len(jobs), got[:30], [b[0] for b in diff[:2]], [b[1] for b in diff[:2]], [(q, jobs[q - 1]) for b in diff[:1] for q in b[0]])
+                ctx.violation("find_jobs:%s@scale:%s" % (kind, Q.shape_of(wf)), what + " [scale tier]",
+                              {"corpus": jobs, "filter": Q.concrete(wf), "ast": f, "scale": True, "want": want, "small": [b[0] for b in diff] if kind != "wrong-ids" else []})
         ctx.cov["deviation_cases"] = dict(self.dev)
         ctx.cov["mismatch_skeletons"] = len(self.by_skel)
 
@@ -302,6 +334,110 @@ def apply_verdicts(ctx, col, recs, verdicts, source):
     return stats
 
 
+# ---- scale tier: large corpora (an implementation may switch strategy with the size of its index) ----------------
+def _scale_worker(item):
+    idx, seed, n, nfilters, nsmall = item
+    rnd = random.Random(seed)
+    jobs = Q.scale_corpus(rnd, n)
+    filters = Q.scale_filters(rnd, jobs, nfilters)
+    base = os.path.join(_G["base"], "big%d" % idx)
+    sb = Q.Sandbox(os.path.join(base, "all"), jobs)
+    flts = [Q.py_concrete(f) for f in filters]
+
+    def answers(box, positions):
+        ids, errs = [], []
+        for flt in flts:
+            m = box.find_mask(flt)
+            if isinstance(m, str):
+                ids.append([]); errs.append(m[4:])
+            else:
+                ids.append([positions[q - 1] for q in Q.mask_to_list(m)]); errs.append("")
+        return ids, errs
+
+    ids, errs = answers(sb, list(range(1, n + 1)))
+    small = []
+    order = list(range(1, n + 1))
+    rnd.shuffle(order)
+    for s in range(nsmall):          # the same jobs in small projects (4..6 jobs each)
+        pos = sorted(order[s * 6: s * 6 + rnd.choice([4, 5, 6])])
+        if not pos:
+            break
+        box = Q.Sandbox(os.path.join(base, "small%d" % s), [jobs[q - 1] for q in pos])
+        sids, serrs = answers(box, pos)
+        small.append({"pos": pos, "ids": sids, "errs": serrs})
+    re_pairs = set()
+    for f in filters:
+        Q.regex_pairs(f, jobs, re_pairs)
+    shutil.rmtree(base, ignore_errors=True)
+    return {"corpus": Q.corpus_to_wire(jobs), "filters": [Q.filter_to_wire(f) for f in filters], "ids": ids, "errs": errs, "small": small,
+            "re": [[Q.cps(r), Q.cps(x)] for r, x in sorted(re_pairs)], "_py": {"jobs": jobs, "filters": filters}}
+
+
+def scale_tier(ctx, col, flags, procs):
+    """code -> spec at scale: TLC computes Find per filter on the large corpus, explains every recorded answer (large and
+    small projects) and evaluates Local across corpus sizes on the code's own answers"""
+    rnd = random.Random(ctx.seed + 17)
+    plan = [(0, 80, 60, 8), (1, 150, 60, 8)] if ctx.quick else [(i, rnd.randrange(70, 201), 100, 16) for i in range(8)]
+    _G.update(base=ctx.mkdtemp("scale"))
+    recs = core.pmap(_scale_worker, [(i, rnd.randrange(2**40), n, nf, ns) for i, n, nf, ns in plan], procs=procs, chunks=1)
+    fin, fout = os.path.join(ctx.work, "scale_in.ndjson"), os.path.join(ctx.work, "scale_out.ndjson")
+    with open(fin, "w") as fh:
+        for r in recs:
+            fh.write(json.dumps({k: v for k, v in r.items() if k != "_py"}) + "\n")
+    # (CaseOK's pairwise state point comparison is done once per corpus inside ScaleJudge, not once per case)
+    cfgt = tlc.cfg(consts("scale", flags), init="InitScale", next="NextCases", invariants=THEOREMS[1:], postcondition="ScaleJudge")
+    r = tlc.run(SPEC, cfg_text=cfgt, workdir=ctx.work, workers=_G.get("workers", 16), env={"QUERY_IN": fin, "QUERY_OUT": fout}, coverage=False, allow_violation=False, heap="8g")
+    ctx.add_tlc("Query scale: %d corpora of %s jobs; every (large corpus, filter) an initial state; Find, Explain, Local across sizes" % (len(recs), [len(x["_py"]["jobs"]) for x in recs]), r)
+    out = [json.loads(l) for l in open(fout)]
+    if len(out) != len(recs):
+        raise core.MachineryError("TLC judged %d of %d scale records" % (len(out), len(recs)))
+    stats = collections.Counter()
+    for rec, res in zip(recs, out):
+        jobs = rec["_py"]["jobs"]
+        distinct = {json.dumps(sp.get("a"), sort_keys=True) + type(sp.get("a")).__name__ for sp, _ in jobs}
+        stats["jobs"] += len(jobs)
+        stats["min_distinct_values_under_sp.a"] = min(stats.get("min_distinct_values_under_sp.a", 10**6), len(distinct))
+        for k, v in enumerate(res["verdicts"]):
+            wf, f = rec["filters"][k], rec["_py"]["filters"][k]
+            if not v["welltyped"]:
+                stats["ill-typed"] += 1
+                continue
+            stats["cases"] += 1
+            ctx.count(Q.shape_of(wf) + "|scale", n=0)
+            if rec["errs"][k]:
+                col.scale_mismatch(jobs, wf, f, v["want"], ["ERR:" + rec["errs"][k]], [])
+                continue
+            lab = v["explain"]
+            if lab == "unexplained":
+                diff = sorted(set(v["want"]) ^ set(rec["ids"][k]))
+                col.scale_mismatch(jobs, wf, f, v["want"], rec["ids"][k], diff)
+            elif lab != "ok":
+                col.deviation(lab, [jobs[q - 1] for q in sorted(set(v["want"]) ^ set(rec["ids"][k]))[:4]], Q.concrete(wf), 0, 0, "scale")
+            for s, slab in enumerate(v["small"]):
+                if slab == "unexplained":
+                    pos = rec["small"][s]["pos"]
+                    sub = [jobs[q - 1] for q in pos]
+                    col.scale_mismatch(sub, wf, f, None, [pos.index(q) + 1 for q in rec["small"][s]["ids"][k]], [], small=True)
+                stats["small-answers"] += 1
+            if v["local"]:
+                stats["local"] += 1
+            else:
+                stats["local-false"] += 1
+                involved = [lab] + list(v["small"])
+                if all(x in ("ok", "n/a") for x in involved):
+                    raise core.MachineryError("Local across sizes fails on answers that all equal Find: %r" % (Q.concrete(wf),))
+                if any(x == "unexplained" for x in involved):
+                    col.scale_local(jobs, wf, f, rec, k)
+    ctx.count(n=stats["cases"] + stats["small-answers"], traces=stats["cases"] + stats["small-answers"])
+    ctx.cov["cases"]["scale"] = dict(stats)
+    if stats["cases"] < 60 or stats["min_distinct_values_under_sp.a"] <= 64:
+        raise core.MachineryError("vacuous scale tier: %r" % dict(stats))
+    rec, res = recs[0], out[0]
+    k = next(k for k, v in enumerate(res["verdicts"]) if v["welltyped"] and rec["filters"][k]["op"] == "$in" and 0 < len(v["want"]) < 12)
+    ctx.sample({"source": "scale tier", "jobs": len(rec["_py"]["jobs"]), "filter": Q.py_concrete(rec["_py"]["filters"][k]), "expected_positions_from_TLC": res["verdicts"][k]["want"],
+                "real_positions": rec["ids"][k], "tlc_verdict": {x: res["verdicts"][k][x] for x in ("explain", "small", "local")}})
+
+
 # ---- TLC: the requirement on the conformant model ---------------------------------------------------
 def requirement_counterexample(ctx, col, flags, which):
     """with only deviation `which` active TLC must report ReqHolds violated; its counterexample is replayed"""
@@ -415,6 +551,9 @@ def run(ctx):
     ok = next((r, v) for r, v in zip(recs, verdicts) if v["welltyped"] and v["explain"] == "ok" and len(r["_py"]["jobs"]) >= 3 and r["_py"]["f"]["tag"] != "atom")
     ctx.sample({"source": "recorded real execution", "corpus": ok[0]["_py"]["jobs"], "filter": Q.py_concrete(ok[0]["_py"]["f"]), "real_positions": ok[0]["ids"], "tlc_verdict": {k: ok[1][k] for k in ("explain", "notc", "meet", "join", "local")}})
 
+    # ---- 5b. scale tier -----------------------------------------------------------------------------------------------
+    scale_tier(ctx, col, flags, procs)
+
     # ---- 6. binding self-test --------------------------------------------------------------------------------
     # (a) a corrupted expectation is noticed by the comparison; (b) a corrupted recorded answer is rejected by TLC
     ln = json.loads(json.dumps(next(l for l in glines if len(l["corpus"]) == 2)))
@@ -444,6 +583,34 @@ def run(ctx):
 def replay(ctx, data):
     jobs = [tuple(j) for j in data["corpus"]]
     sb = Q.Sandbox(ctx.mkdtemp("replay"), jobs)
+    if data.get("scale"):
+        # re-run on the large project and on the recorded small ones; TLC (MODE = "scale") judges
+        f = data["ast"]
+        flt = Q.py_concrete(f)
+        n = len(jobs)
+
+        def ans(box, positions):
+            m = box.find_mask(flt)
+            return ([], m[4:]) if isinstance(m, str) else ([positions[q - 1] for q in Q.mask_to_list(m)], "")
+        ids, err = ans(sb, list(range(1, n + 1)))
+        small = []
+        for pos in (data.get("small") or [list(range(1, min(n, 5) + 1))]):
+            box = Q.Sandbox(ctx.mkdtemp("small"), [jobs[q - 1] for q in pos])
+            sids, serr = ans(box, pos)
+            small.append({"pos": pos, "ids": [sids], "errs": [serr]})
+        rec = {"corpus": Q.corpus_to_wire(jobs), "filters": [Q.filter_to_wire(f)], "ids": [ids], "errs": [err], "small": small,
+               "re": [[Q.cps(r), Q.cps(x)] for r, x in sorted(Q.regex_pairs(f, jobs, set()))]}
+        fin, fout = os.path.join(ctx.work, "r_in.ndjson"), os.path.join(ctx.work, "r_out.ndjson")
+        with open(fin, "w") as fh:
+            fh.write(json.dumps(rec) + "\n")
+        cfgt = tlc.cfg(consts("scale", probe_flags(ctx)), init="InitScale", next="NextCases", invariants=THEOREMS, postcondition="ScaleJudge")
+        tlc.run(SPEC, cfg_text=cfgt, workdir=ctx.work, env={"QUERY_IN": fin, "QUERY_OUT": fout}, coverage=False, allow_violation=False)
+        v = json.loads(open(fout).readline())["verdicts"][0]
+        print("find_jobs(%s) on %d jobs -> positions %s ; TLC: Find = %s, explain = %s" % (json.dumps(flt), n, ids, v["want"], v["explain"]))
+        for sm, lab in zip(small, v["small"]):
+            print("   small project of the jobs at %s -> %s (%s)" % (sm["pos"], sm["ids"][0], lab))
+        print("   Local across corpus sizes:", v["local"])
+        return 0 if v["explain"] != "unexplained" and v["local"] and "unexplained" not in v["small"] and not err else 1
     if data.get("relation"):
         # re-record the execution and let TLC evaluate the relations on the code's own answers
         singles = [Q.Sandbox(ctx.mkdtemp("single"), [j]) for j in jobs]
